@@ -79,6 +79,10 @@ add("C08", "fault_enumeration", "runtime monitoring under fault injection: audit
     "For each scenario a profiling run (deterministic version ids) enumerates every mkdir / open-for-write / rename / remove of the memoizing call; every operation is faulted in every applicable variant (thorough: every byte of every link file) in a pristine child, then three fresh processes call the function and a second function with byte-identical results: values must be correct, nothing may raise, and no body may run in the third process (bounded recovery).",
     "Crash = os._exit at the failpoint; faults hit mutating operations only; durability of completed writes is left to the file system; CPython audit events enumerate the operations.", "DESIGN.md §4 C08")
 
+add("C09", "exploration", "runtime monitoring under schedule control: a baton scheduler over sys.monitoring (LINE events in runner and cache code, function-entry events elsewhere, scheduler-aware locks) drives 2-3 real threads through systematically enumerated one-preemption schedules and random / PCT schedules; results, escaping errors, body counts, deadlocks, cache accounts and call stacks are checked per run",
+    "Per scenario and store/cache state every schedule with one preemption (every yield point of the unpreempted run) is executed, plus random and priority-based schedules (thorough: every starting thread, sampled two-preemption schedules, storage_filesystem at line granularity); each run is compared with sequential executions of the same thread bodies. Evidence reports distinct switch traces.",
+    "Only locks created through re-bound names (runner_local.RLock, _memento_fn_mutex_lock, storage_base.RLock) are visible to the scheduler; anything else blocking shows as a watchdog time-out = inconclusive. Line-granularity preemption is finer than what one CPython build does.", "DESIGN.md §4 C09")
+
 NOT_BUILT = "check not built yet in this round (design in DESIGN.md §4); will be claimed once its monitor exists"
 
 
